@@ -397,8 +397,10 @@ class Check:
 
     # ---- proof side
     def proofs(self):
-        # one proof phase per property at a time (the generated facts live inside the Lean project)
-        with Lock("proof_" + self.pid):
+        # one proof phase at a time, for ALL properties: the generated facts live inside the Lean project and
+        # some generated modules are shared (Gen/FactsMuxIR by C01, C05, C12), so a run against another checkout
+        # (VERIF_REPO, seedverify) must not interleave its facts+build+audit with a run against /repo.
+        with Lock("proof"):
             self._proofs()
 
     def _proofs(self):
